@@ -99,6 +99,11 @@ def rule_soft_sites(ctx):
                     hits.append((x, a))
             except Exception:
                 pass
+        if len(hits) > 1:
+            # nested matches re-read the same discriminant (e.g. an inner arm per error kind): the deciding branch is the one that dominates the rest
+            dom = [h for h in hits if all(b.dominates(h[0], g[0]) for g in hits)]
+            if len(dom) == 1:
+                hits = dom
         if len(hits) != 1:
             ctx.violated(R, key + ("anchor",), b.where(0), "anchor lost: expected one branch on the result of %s in %s, found %d" % (s["what"], s["caller"], len(hits)))
             continue
